@@ -292,3 +292,15 @@ def two_mrcas_oldest_first():
 
 S2["two_mrcas_oldest_last"] = two_mrcas_oldest_last
 S2["two_mrcas_oldest_first"] = two_mrcas_oldest_first
+
+
+def diploid_missing():
+    """diploid individual (nodes 0,1); node 1 is isolated (missing) on [0,4); node 0's leaf
+    edge changes inside that region at 2; no singleton sits in the one-branch region."""
+    return _ts(12, [(1, 0, 0), (1, 0, 0), (1, 0), (1, 0), (0, 1), (0, 1.5), (0, 3)],
+               [(0, 2, 4, 0), (2, 12, 5, 0), (4, 12, 5, 1), (0, 12, 4, 2), (0, 2, 5, 3),
+                (2, 12, 4, 3), (0, 12, 6, 4), (0, 12, 6, 5)],
+               [5, 8, 10], [(0, 0), (1, 1), (2, 2)], individuals=1)
+
+
+S3["diploid_missing"] = diploid_missing
